@@ -144,6 +144,14 @@ func (g *senGen) value(b *strings.Builder, depth int) {
 		g.str(b)
 	case 2:
 		b.WriteString(senToken(g.t))
+		if g.allowExt && g.nested > 0 && sim.Intn(g.t, 8, "tokplus") == 7 {
+			// '+' concatenation with a bare token as the left operand (parser extension)
+			g.ext = true
+			b.WriteString([]string{" + ", "+", " +\n"}[sim.Intn(g.t, 3, "plusws")])
+			b.WriteByte('"')
+			b.WriteString(StringBody(g.t, 3))
+			b.WriteByte('"')
+		}
 	case 3:
 		b.WriteString("null")
 	case 4:
